@@ -59,6 +59,23 @@ def collect(tier, only, chk):
                 j.name = 'c14.' + j.name
         per[pid] = len(sel)
         out += sel
+    # big-endian twins of the buffer re-use sequences of C07 / C08 (built inside their run(), so re-created here)
+    from gen import vss as V
+    from spec import wire_spec as W
+    seq = []
+    for sq in [(0x00, 0, 3, 1, 0x04, 1, 0, 1), (0x0B, 0, 6, 4, 0x06, 1, 0, 1), (0x82, 0, 2, 3, 0x82, 0, 7, 2), (0x8A, 0, 4, 2, 0x09, 0, 9, 1)]:
+        src, M = V.c07_sequence(*sq)
+        seq.append(Job('c14.c07.sequence.%s-then-%s.be' % (W.VSS_TYPES[sq[0]][0], W.VSS_TYPES[sq[4]][0]), src, c07.SRC, be=True,
+                       unwind=max(70, M + 8), unwindset=WALKER, timeout=900, object_bits=12, backend='kissat',
+                       meta={'sequence': 'two messages encoded into one buffer', 'host': 'big-endian model'}))
+    for code, modes, plens, cnt in [(0x04, (0, 0), (3, 7), 1), (0x82, (0, 1, 0), (1, 0, 6), 2), (0x0A, (1, 0), (0, 4), 1)]:
+        src, M = V.c08_sequence(code, modes, plens, cnt)
+        seq.append(Job('c14.c08.sequence.%s.be' % W.VSS_TYPES[code][0], src, c07.SRC, be=True, unwind=max(70, M + 8),
+                       unwindset=WALKER, timeout=900, object_bits=12, backend='kissat',
+                       loop_policy=c07.codec_loop_policy(W.VSS_TYPES[code][0], cnt + 2),
+                       meta={'sequence': 'messages decoded at the same buffer address', 'host': 'big-endian model'}))
+    per['C07/C08 sequences'] = len(seq)
+    out += seq
     return out, per
 
 
